@@ -157,11 +157,22 @@ def run_sequence(ctx, w, seq, term, detect, rw, link=False, facade=False):
                 fail("handle_replaced_although_detection_off", "file object changed with detection disabled")
 
     w.sg.pre_hooks.append(at_binding)
+    # the documented fourth argument (buffering, as for open()): unbuffered, default, line / block sizes
+    buffering = (None, 0, -1, 4096, None, 0, 8192, None)[(len(seq) * 5 + seq.count("R") * 3 + seq.count("F")) % 8]
+    wit["buffering"] = buffering
     try:
-        dev = w.sd.SCSIDevice(node, rw, detect)
+        dev = w.sd.SCSIDevice(node, rw, detect) if buffering is None else w.sd.SCSIDevice(node, rw, detect, buffering)
     except Exception as e:  # noqa: BLE001
         ctx.fail("C15:open_raises.%s" % type(e).__name__, "SCSIDevice(%s) raised %s" % (node, e), wit, exc=e)
         return False
+    if (len(seq) + seq.count("U")) % 4 == 1:
+        # a shallow copy of the device object (a second view with another command set) that is dropped again: the original's
+        # handle is untouched
+        import copy
+
+        twin = copy.copy(dev)
+        del twin  # (no cycle: it goes away at once)
+        wit["shallow_copy_dropped"] = True
     state["original"] = dev._file
     # the device type an attach stored, any of them (tapes, changers, unknown ones): handles are handled alike for all
     dtype = (0x00, 0x01, 0x05, 0x08, 0x0E, 0x1F, None, 0x01, 0x02, 0x0D)[(len(seq) * 3 + seq.count("R") + (1 if rw else 0)) % 10]
@@ -337,8 +348,28 @@ def run_sequence(ctx, w, seq, term, detect, rw, link=False, facade=False):
             elif term == "S":
                 s = SCSI(None)
                 s.device = dev
-                with s:
-                    pass
+                # left normally, by an ordinary exception, or by one that is not an Exception (Ctrl-C, sys.exit(), a generator
+                # closed while suspended inside the block): the handle is released in every case
+                how = (len(seq) + seq.count("E")) % 5
+                wit["facade_block_left_by"] = ("end of block", "RuntimeError", "KeyboardInterrupt", "SystemExit", "GeneratorExit")[how]
+                if how == 0:
+                    with s:
+                        pass
+                elif how == 4:
+                    def gen():
+                        with s:
+                            yield 1
+
+                    g = gen()
+                    next(g)
+                    g.close()
+                else:
+                    ex_t = (None, RuntimeError, KeyboardInterrupt, SystemExit)[how]
+                    try:
+                        with s:
+                            raise ex_t("leaving the block")
+                    except ex_t:
+                        pass
         except Exception as e:  # noqa: BLE001
             fail("close_raises.%s" % type(e).__name__, "terminal %s raised %r" % (term, e))
         is_open = False
